@@ -280,7 +280,7 @@ def check(prop, tier, replay=None):
     V.leg("R", histories=len(hs), mismatches=nbad, wall_s=round(time.time() - t0, 2))
     V.sample({"leg": "R", "history": hs[len(hs) // 2]})
     t0 = time.time()
-    traces = [gen_trace(core, aio, rng, tier, tmpdir, i) for i in range(400 if tier == "quick" else 4000)]
+    traces = [gen_trace(core, aio, rng, tier, tmpdir, i) for i in range(400 if tier == "quick" else 25000)]
     tcfg = "SPECIFICATION TSpec\nCONSTRAINT Mon\nPOSTCONDITION Post\nCHECK_DEADLOCK FALSE\n"
     rows, st = judge("FilesTrace", tcfg, traces, wd, "ft", strip=lambda x: {"pool": x["pool"], "ev": x["ev"]},
                      weight=lambda x: sum(len(e["ret"]) + len(e["file"]) + 5 for e in x["ev"]))
